@@ -480,6 +480,7 @@ def run_property(prop, tier, seed):
             continue
         if bad and "does not apply exactly once" in (bad[0].get("error") or ""):
             selfval.append({"breaker": bk["desc"], "skipped": "source text of the seeded edit is not present in this tree"})
+            warnings.append("self-validation: seeded breaker skipped, its source text is not present in this tree: %s" % bk["desc"])
             continue
         selfval.append({"breaker": bk["desc"], "detected_by": sorted(set(hit))[:5], "detected": bool(hit),
                         "wall_s": round(time.time() - tb0, 2)})
